@@ -121,7 +121,7 @@ impl Stats {
         self.batch_digest = self.batch_digest.wrapping_add(other.batch_digest);
     }
     pub fn get(&self, k: &str) -> u64 {
-        self.counters.get(k).copied().unwrap_or(0)
+        self.counters.get(k).copied().unwrap_or(0) + self.dyn_counters.get(k).copied().unwrap_or(0)
     }
 }
 
@@ -1055,8 +1055,26 @@ pub fn run_check(check: &dyn Check, tier: Tier) -> Outcome {
     } else {
         0
     };
+    // summary of the same batch run by the binary built with the other profile (C03)
+    let other_profile: Value = std::env::var("VERIF_EMBED")
+        .ok()
+        .and_then(|p| std::fs::read_to_string(p).ok())
+        .and_then(|t| serde_json::from_str::<Value>(&t).ok())
+        .map(|v| {
+            json!({
+                "build_profile": v["coverage"]["build_profile"],
+                "evaluations": v["coverage"]["evaluations"],
+                "events_total": v["coverage"]["events_total"],
+                "batch_digest": v["coverage"]["batch_digest"],
+                "violations": v["violations"],
+                "findings": v["coverage"]["findings"],
+                "wall_s": v["wall_s"],
+            })
+        })
+        .unwrap_or(Value::Null);
     let coverage = json!({
         "evaluations": res.runs_done,
+        "other_build_profile_run": other_profile,
         "distinct_nontrivial": distinct,
         "rule": check.rule(),
         "samples": samples,
@@ -1134,7 +1152,8 @@ fn evidence_suffix() -> String {
 pub fn write_evidence(id: &str, evidence: &Value) {
     let dir = format!("{}/evidence", verif_root());
     let _ = std::fs::create_dir_all(&dir);
-    let path = format!("{}/{}{}.json", dir, id, evidence_suffix());
+    let path = std::env::var("VERIF_EVIDENCE_PATH")
+        .unwrap_or_else(|_| format!("{}/{}{}.json", dir, id, evidence_suffix()));
     let tmp = format!("{}.tmp", path);
     std::fs::write(&tmp, serde_json::to_string_pretty(evidence).unwrap())
         .expect("cannot write evidence");
